@@ -480,7 +480,7 @@ fn k_point(ctx: &mut Ctx, base: &SPDC, p1: &str, v1: f64, p2: &str, v2: f64) {
       // the configuration shows the period's magnitude only: the stored sign is appended
       Some(c) => format!(
         "{} {}",
-        config_tokens(&c),
+        config_tokens(&c, s),
         match &s.pp {
           PeriodicPoling::Off => "sign:off",
           PeriodicPoling::On { sign, .. } => if *sign == Sign::NEGATIVE { "sign:neg" } else { "sign:pos" },
@@ -869,7 +869,7 @@ pub fn run(ctx: &mut Ctx) {
         continue;
       }
     };
-    let cfgs: Vec<String> = all.iter().map(|s| guard(|| config_tokens(&s.clone().as_config())).unwrap_or("PANIC".into())).collect();
+    let cfgs: Vec<String> = all.iter().map(|s| guard(|| config_tokens(&s.clone().as_config(), s)).unwrap_or("PANIC".into())).collect();
     ctx.k(
       "sweep_order",
       &format!("{} | {} {} {} {} {} {} {} {}", setup_tokens(&base), p1, p2, fl(a1), fl(b1), nx, fl(a2), fl(b2), ny),
